@@ -268,6 +268,14 @@ func (it *Interp) fnTerm(fn string, t *fterm) *fterm {
 		it.absOf = map[int]*fterm{}
 		it.atomFn = map[int]string{}
 	}
+	// even (abs, cos) and odd (sin) functions: f(-t) is written through f(t), so that both name one atom
+	flip := false
+	if fn == "abs" || fn == "cos" || fn == "sin" {
+		if neg, ok := leadingNegative(t); ok && neg {
+			t = termAdd(termConst(0), t, -1)
+			flip = fn == "sin"
+		}
+	}
 	key := fn + ":" + t.N.String() + "/" + t.D.String()
 	id, ok := it.absAtoms[key]
 	if !ok {
@@ -275,6 +283,51 @@ func (it *Interp) fnTerm(fn string, t *fterm) *fterm {
 		id = it.nextSym
 		it.absAtoms[key] = id
 		it.absOf[id] = t
+		it.atomFn[id] = fn
+	}
+	if flip {
+		return termAdd(termConst(0), termAtom(id), -1)
+	}
+	return termAtom(id)
+}
+
+// leadingNegative: for a polynomial over a positive constant, whether the coefficient of its first monomial (in
+// the fixed order of the keys) is negative.  Used to pick one of t / -t as the representative.
+func leadingNegative(t *fterm) (bool, bool) {
+	if t == nil || len(t.N) == 0 || len(t.D) != 1 {
+		return false, false
+	}
+	d, ok := t.D[""]
+	if !ok || d.Sign() <= 0 {
+		return false, false
+	}
+	first := ""
+	started := false
+	for k := range t.N {
+		if !started || k < first {
+			first, started = k, true
+		}
+	}
+	return t.N[first].Sign() < 0, true
+}
+
+// fnTermPair: an uninterpreted function of two terms in order (atan2), as an atom of its own.
+func (it *Interp) fnTermPair(fn string, a, b *fterm) *fterm {
+	if a == nil || b == nil {
+		return nil
+	}
+	if it.absAtoms == nil {
+		it.absAtoms = map[string]int{}
+		it.absOf = map[int]*fterm{}
+		it.atomFn = map[int]string{}
+	}
+	key := fn + "::" + a.N.String() + "/" + a.D.String() + "|" + b.N.String() + "/" + b.D.String()
+	id, ok := it.absAtoms[key]
+	if !ok {
+		it.nextSym++
+		id = it.nextSym
+		it.absAtoms[key] = id
+		it.absOf[id] = a
 		it.atomFn[id] = fn
 	}
 	return termAtom(id)
